@@ -255,10 +255,19 @@ func (b *vfBody) Read(p []byte) (int, error) {
 	if b.pos >= len(b.data) {
 		return 0, io.EOF
 	}
-	n := copy(p, b.data[b.pos:])
+	m := len(b.data) - b.pos
+	if vfBodyChunk > 0 && m > vfBodyChunk {
+		m = vfBodyChunk // the body arrives in several reads
+	}
+	if m > len(p) {
+		m = len(p)
+	}
+	n := copy(p, b.data[b.pos:b.pos+m])
 	b.pos += n
 	return n, nil
 }
+
+var vfBodyChunk int
 
 func (b *vfBody) Close() error { b.closed++; return nil }
 
